@@ -17,7 +17,7 @@ fn iv_json(v: &[(u32, u32)], max: usize) -> J {
 
 /// Names that the subject's own source mentions as string literals in its name tables: they join the
 /// candidate list so that a newly added (bogus) alias is judged too. Candidates only - never a verdict.
-fn names_in_subject_source() -> Vec<String> {
+pub fn names_in_subject_source() -> Vec<String> {
     let mut out = BTreeSet::new();
     for f in ["/repo/src/unicodetables.rs", "/repo/src/unicode.rs"] {
         let Ok(src) = std::fs::read_to_string(f) else { continue };
@@ -135,7 +135,14 @@ pub fn c11(run: &mut Run) -> Stats {
                         continue;
                     }
                     let pat = cps(&format!("\\{}{{{}}}+", if neg { 'P' } else { 'p' }, e));
-                    let CompileOutcome::Ok(re) = subject::compile(&pat, Flags::parse(fs), false) else { continue };
+                    // with the program's start predicate, and (quick tier: for \\p under u) without it: a start
+                    // predicate computed from the right set can hide a wrong member of the emitted set
+                    for without_pf in [false, true] {
+                    if without_pf && !thorough && (fs != "u" || neg) {
+                        continue;
+                    }
+                    let compiled = if without_pf { subject::compile_without_prefilter(&pat, Flags::parse(fs), false) } else { subject::compile(&pat, Flags::parse(fs), false) };
+                    let CompileOutcome::Ok(re) = compiled else { continue };
                     st.add("evaluations", 1);
                     st.add("validated", 1);
                     st.add("nontrivial", 1);
@@ -163,7 +170,7 @@ pub fn c11(run: &mut Run) -> Stats {
                                 st.violation(
                                     &known,
                                     "C11",
-                                    &format!("\\{}{{{}}} denotes a different set", if neg { 'P' } else { 'p' }, e),
+                                    &format!("\\{}{{{}}} denotes a different set{}", if neg { 'P' } else { 'p' }, e, if without_pf { " (program without its start predicate)" } else { "" }),
                                     e.len(),
                                     case(e, fs, neg, "set of matching code points differs from Unicode 17 (symmetric difference shown, first 12 runs)", J::s("(oracle)"), iv_json(&d, 12)).set("differing_code_points", J::u(d.iter().map(|(a, b)| (b - a + 1) as u64).sum())),
                                 );
@@ -173,6 +180,7 @@ pub fn c11(run: &mut Run) -> Stats {
                         }
                         Outcome::Panic(m) => st.violation(&known, "C11", "panic matching a property escape", e.len(), case(e, fs, neg, "panic", J::Null, J::s(&m))),
                         Outcome::Fuel => {}
+                    }
                     }
                 }
             }
@@ -278,7 +286,7 @@ pub fn c11(run: &mut Run) -> Stats {
         st3 = st3.merge(s);
     }
     run.rule = format!(
-        "acceptance: {} candidate expressions (every expression the oracle lists as accepted or rejected: names, values and aliases of all Unicode properties known to Perl UCD 14 and ES, scripts of Unicode 15-17, case/underscore/space variants, wrong property prefixes, plus {} built from string literals found in the subject's own name tables) x {{u,v}} x {{\\p,\\P}}; membership: every accepted expression x {{u,v}} x {{\\p,\\P}} over all 1,112,064 scalar values (one scan of the all-scalars haystack each); every accepted expression used with both polarities in one pattern (5 templates x 6 member / non-member haystack shapes); strings: {} judged strings x 7 properties of strings under v as /^\\p{{..}}$/, and every member string against the unanchored forms /\\p{{..}}/, /[\\p{{..}}]/ and /(?<=^\\p{{..}})$/ (whole-string first match, forwards and backwards); non-trivial = expression admitted by ES / string is a member",
+        "acceptance: {} candidate expressions (every expression the oracle lists as accepted or rejected: names, values and aliases of all Unicode properties known to Perl UCD 14 and ES, scripts of Unicode 15-17, case/underscore/space variants, wrong property prefixes, plus {} built from string literals found in the subject's own name tables) x {{u,v}} x {{\\p,\\P}}; membership: every accepted expression x {{u,v}} x {{\\p,\\P}} over all 1,112,064 scalar values (one scan of the all-scalars haystack each, with the program's start predicate and again without it); every accepted expression used with both polarities in one pattern (5 templates x 6 member / non-member haystack shapes); strings: {} judged strings x 7 properties of strings under v as /^\\p{{..}}$/, and every member string against the unanchored forms /\\p{{..}}/, /[\\p{{..}}]/ and /(?<=^\\p{{..}})$/ (whole-string first match, forwards and backwards); non-trivial = expression admitted by ES / string is a member",
         cands.len(),
         from_source,
         t.universe.len()
